@@ -330,7 +330,11 @@ def build(mir, cube):
     world, opf = World(), OpFill()
     realizable = [mt != MT.index('Wasm')]
     for q in qs:
-        q.describe = describe; q.world = world; q.ops = [opf]; q.realizable = realizable
+        q.describe = describe
+        # the public-API replay (parse_module) cannot produce a Wasm module from a dictated ModuleInfo: in the wasm cube the witnesses are
+        # decided by the solver alone, and a counterexample there would be reported as inconclusive rather than as a violation
+        if cube.get('mclass') == 'wasm' and q.kind == 'witness': continue
+        q.world = world; q.ops = [opf]; q.realizable = realizable
     for fname in sorted({f for f, _ in eng.exceeded}):
         qs.insert(0, Query('unwinding:' + fname.split('>::')[-1], Or(gd for f, gd in eng.exceeded if f == fname), kind='unwind'))
     qs.insert(0, Query('model-capacity', Or(gd for _, gd in eng.obligations), kind='obligation'))
